@@ -14,7 +14,7 @@ ENCODED = ['Fxp.__init__', 'Fxp._init_size', 'Fxp.resize', 'Fxp.set_val', 'Fxp._
            'utils.binary_and', 'utils.binary_or', 'utils.binary_xor', 'utils.binary_invert', 'utils.twos_complement_repr', 'Fxp.reset']
 ASSUMPTIONS = [
     'inputs are Python integers c with |c| < 2^(4*n_word) given as a code (raw=True) or as an integer value v with |v * 2^n_frac| < 2^(4*n_word)',
-    'strings in raw mode are the renderings bin(prefix=0b) / hex() of an arbitrary in-range code (C11 harness reused at these widths: 64 in the quick tier, '
+    'strings in raw mode are the renderings bin(prefix=0b) / hex() of an arbitrary in-range code (C11 harness reused at these widths: 64 and one of 65 / 66 (signed) in the quick tier, '
     '64, 65, 66, 72, 96, 128 in the thorough tier; wider strings are outside the bound)',
     'bitwise operators: C13 harness reused at these widths (independent bit-vector specification on the n_word low bits)',
     'the inaccuracy flag is not part of C18 (C04 states it for n_word <= 52); at these widths the real code compares through a float division '
@@ -49,8 +49,10 @@ def configs(tier, seed):
                 out.append(dict(part='extprec', signed=s, n_word=n, n_frac=f))
     # strings in raw mode and rendering: C11's harness on wide words
     # (string parsing forks on the bit length of the parsed value: about 2n paths of growing cost; 128 bits is the widest row that finishes)
-    for n in ((64,) if tier == 'quick' else (64, 65, 66, 72, 96, 128)):
+    for n in ((64, rng.choice((65, 66))) if tier == 'quick' else (64, 65, 66, 72, 96, 128)):
         for s in (True, False):
+            if tier == 'quick' and n != 64 and not s:
+                continue                  # (a width that is not a multiple of 4: the signed word, where the hex field is wider than the word)
             out.append(dict(part='strings', c11=dict(signed=s, n_word=n, n_frac=rng.choice(_nfs(n)), shape=[], mode='raw')))
     # bitwise operators: C13's harness on wide words
     for n in ((64, 65) if tier == 'quick' else (64, 65, 66, 72, 96, 127, 128, 129, 200, 256)):
